@@ -343,6 +343,102 @@ let c07_model toks_l =
     ref_out (through_loop (fun g -> ref_call env c regs g mem rst) rst)
   | _ -> "BADCASE"
 
+
+(* ---- stream (5): the six inner-machine calls on Model/InnerVm.v (the C33 model); format of cmd/verif_c07/inner_c07.go ---- *)
+let zs = string_of_z
+let z2za = za_of_z
+let in_parse_page (s : string) : z * Model.page =
+  match split_on ':' s with
+  | idx :: acc :: runs ->
+    let dat = ref [] in
+    List.iter
+      (fun r ->
+        match split_on '=' r with
+        | [ off; hx ] ->
+          let o = int_of_string off in
+          List.iteri (fun i b -> dat := (z_of_za (ZA.of_int (o + i)), z_of_za (ZA.of_int (fint b))) :: !dat) (bytes_of_hex hx)
+        | _ -> failwith "bad run")
+      runs;
+    let a = match acc with "0" -> AccNone | "1" -> AccRO | _ -> AccRW in
+    (z_of_string idx, { Model.p_acc = a; p_dat = List.rev !dat })
+  | _ -> failwith "bad page"
+
+let in_fmt_page ((idx, pg) : z * Model.page) : string =
+  let b = Buffer.create 64 in
+  Buffer.add_string b (zs idx);
+  Buffer.add_char b ':';
+  Buffer.add_string b (match pg.p_acc with AccNone -> "0" | AccRO -> "1" | AccRW -> "2");
+  let cells =
+    List.filter (fun (_, v) -> v <> 0) (List.map (fun (o, v) -> (ZA.to_int (z2za o), ZA.to_int (z2za v))) pg.p_dat)
+  in
+  let cells = List.sort_uniq compare cells in
+  let rec go = function
+    | [] -> ()
+    | (o, v) :: t ->
+      Buffer.add_string b (Printf.sprintf ":%d=%02x" o v);
+      let rec run prev = function
+        | (o', v') :: t' when o' = prev + 1 -> Buffer.add_string b (Printf.sprintf "%02x" v'); run o' t'
+        | rest -> rest
+      in
+      go (run o t)
+  in
+  go cells;
+  Buffer.contents b
+
+let in_absent ((_, pg) : z * Model.page) : bool = pg.p_acc = AccNone && List.for_all (fun (_, v) -> v = Z0) pg.p_dat
+let in_dump_mem (pages : (z * Model.page) list) : string =
+  match List.filter (fun p -> not (in_absent p)) pages with
+  | [] -> "-"
+  | ps ->
+    let ps = List.sort (fun (a, _) (b, _) -> ZA.compare (z2za a) (z2za b)) ps in
+    String.concat ";" (List.map in_fmt_page ps)
+let in_dump_machines ms : string =
+  match ms with
+  | [] -> "-"
+  | _ ->
+    let ms = List.sort (fun (a, _) (b, _) -> ZA.compare (z2za a) (z2za b)) ms in
+    String.concat "|"
+      (List.map (fun (k, mc) -> Printf.sprintf "%s@%s@%s@%s" (zs k) (zs mc.mc_pc) (zs mc.mc_mem.m_hp) (in_dump_mem mc.mc_mem.m_pages)) ms)
+
+let in_call_of = function
+  | "m" -> CMachine | "k" -> CPeek | "p" -> CPoke | "g" -> CPages | "v" -> CInvoke | "x" -> CExpunge
+  | _ -> failwith "bad op"
+
+let in_init_regs : z list = List.init 13 (fun i -> z_of_za (ZA.mul (ZA.of_int (i + 1)) (ZA.of_string "72340172838076673")))
+
+let inner_model (pages : string) (gas : string) (ops : string list) : string =
+  let mem0 = { m_pages = (if pages = "-" then [] else List.map in_parse_page (split_on ';' pages)); m_hp = Z0; m_hl = Z0 } in
+  let s = ref { o_regs = in_init_regs; o_gas = z_of_string gas; o_mem = mem0; o_mach = [] } in
+  let prev_o = ref (in_dump_mem !s.o_mem.m_pages) and prev_m = ref "-" in
+  let delta cur prev = if cur = !prev then "=" else begin prev := cur; cur end in
+  let recs = ref [] and stop = ref false in
+  List.iter
+    (fun op ->
+      if not !stop then
+        match split_on ',' op with
+        | [ "w"; addr; hx ] ->
+          s := guest_write !s (z_of_string addr) (List.map (fun b -> z_of_za (ZA.of_int (fint b))) (bytes_of_hex hx));
+          prev_o := in_dump_mem !s.o_mem.m_pages
+        | name :: args ->
+          let c = in_call_of name in
+          let s1 = with_regs !s (set_args !s.o_regs (nat_of_int 7) (List.map z_of_string args)) in
+          (match hostcall c s1 with
+           | None -> recs := "STUCK" :: !recs; stop := true
+           | Some (e, s2) ->
+             s := s2;
+             let kind = match e with XCont -> "c" | XPanic -> stop := true; "panic" | XOog -> stop := true; "oog" in
+             let o = delta (in_dump_mem s2.o_mem.m_pages) prev_o in
+             let m = delta (in_dump_machines s2.o_mach) prev_m in
+             recs := Printf.sprintf "%s %s %s %s %s" kind (String.concat "," (List.map zs s2.o_regs)) (zs s2.o_gas) o m :: !recs)
+        | [] -> failwith "empty op")
+    ops;
+  if !recs = [] then "-" else String.concat " ; " (List.rev !recs)
+
+let c07_dispatch toks_l =
+  match toks_l with
+  | "h" :: pages :: gas :: ops -> inner_model pages gas ops
+  | _ -> c07_model toks_l
+
 let () =
   blake2b_fast_selftest ();
-  run_cases c07_model
+  run_cases c07_dispatch
